@@ -220,7 +220,27 @@ func execControlRW(vec J, out *Writer) {
 				return
 			}
 			dup, _ := vec["dup"].(bool)
-			for _, vj := range L(vec["values"]) {
+			vals := L(vec["values"])
+			if n := I0(vec["slice_first"]); n > 0 && n <= len(vals) && !dup {
+				// the first n structs go through ONE Encode call as a slice (by value or behind a pointer), the others follow
+				// one by one: the same paragraphs, the same separators
+				first := []encProbe{}
+				for _, vj := range vals[:n] {
+					v := M(vj)
+					first = append(first, encProbe{Name: S(v["Name"]), Comment: S(v["Comment"]), Notes: S(v["Notes"])})
+				}
+				var err error
+				if ptr, _ := vec["slice_ptr"].(bool); ptr {
+					err = enc.Encode(&first)
+				} else {
+					err = enc.Encode(first)
+				}
+				if err != nil {
+					return
+				}
+				vals = vals[n:]
+			}
+			for _, vj := range vals {
 				v := M(vj)
 				var err error
 				if dup {
